@@ -95,7 +95,7 @@ example : (({} : WriteLoop).run [.service [1, 2, 3, 4], .accepted 1, .stalled, .
 
 def payloadOf : WsMsg → Bytes
   | .data p => p
-  | .control => []
+  | _ => []
 
 def payloads (ms : List WsMsg) : Bytes := (ms.map payloadOf).flatten
 
@@ -105,7 +105,7 @@ def residual (r : WsReader) (arrived : List WsMsg) : Bytes :=
 
 def resultBytes : WsResult → Bytes
   | .ok b => b
-  | .wouldBlock => []
+  | _ => []
 
 theorem cursorRead_spec (data : Bytes) (index space : Nat) :
     (cursorRead data index space).1 ++ data.drop (cursorRead data index space).2 = data.drop index ∧
@@ -127,38 +127,59 @@ theorem wsLoop_conserves : ∀ (fuel : Nat) (r : WsReader) (arrived : List WsMsg
     let out := wsLoop fuel r arrived bufLen acc
     resultBytes out.2.2 ++ residual out.1 out.2.1 = acc ++ residual r arrived ∧
     (resultBytes out.2.2).length ≤ bufLen ∧
-    (out.2.2 = .wouldBlock → acc = [])
+    ((out.2.2 = .wouldBlock ∨ out.2.2 = .err) → acc = [])
   | 0, r, arrived, bufLen, acc, hacc => by
     simp only [wsLoop]
     cases acc with
     | nil => simp [resultBytes]
     | cons a t => simp [resultBytes]; exact hacc
   | fuel + 1, r, arrived, bufLen, acc, hacc => by
+    obtain ⟨cur, failed⟩ := r
     simp only [wsLoop]
     by_cases hfull : acc.length ≥ bufLen
     · simp only [hfull, ↓reduceIte, resultBytes]
-      exact ⟨trivial, by omega, by intro h; cases h⟩
+      refine ⟨trivial, by omega, ?_⟩
+      intro h; rcases h with h | h <;> cases h
     · simp only [hfull, ↓reduceIte]
-      cases hcur : r.cur with
+      cases cur with
       | none =>
-        cases arrived with
-        | nil =>
-          simp only []
+        simp only []
+        cases failed with
+        | true =>
+          simp only [↓reduceIte]
           cases acc with
-          | nil => simp [resultBytes]
+          | nil => simp [resultBytes, residual]
           | cons a t => simp [resultBytes]; exact hacc
-        | cons m rest =>
-          cases m with
-          | control =>
-            have ih := wsLoop_conserves fuel r rest bufLen acc hacc
-            simp only [] at ih ⊢
-            refine ⟨?_, ih.2.1, ih.2.2⟩
-            rw [ih.1]; simp [residual, payloads, payloadOf, hcur]
-          | data p =>
-            have ih := wsLoop_conserves fuel { cur := some (p, 0) } rest bufLen acc hacc
-            simp only [] at ih ⊢
-            refine ⟨?_, ih.2.1, ih.2.2⟩
-            rw [ih.1]; simp [residual, payloads, payloadOf, hcur]
+        | false =>
+          simp only [Bool.false_eq_true, ↓reduceIte]
+          cases arrived with
+          | nil =>
+            simp only []
+            cases acc with
+            | nil => simp [resultBytes]
+            | cons a t => simp [resultBytes]; exact hacc
+          | cons m rest =>
+            cases m with
+            | control =>
+              have ih := wsLoop_conserves fuel { cur := none, failed := false } rest bufLen acc hacc
+              simp only [] at ih ⊢
+              refine ⟨?_, ih.2.1, ih.2.2⟩
+              rw [ih.1]; simp [residual, payloads, payloadOf]
+            | data p =>
+              have ih := wsLoop_conserves fuel { cur := some (p, 0), failed := false } rest bufLen acc hacc
+              simp only [] at ih ⊢
+              refine ⟨?_, ih.2.1, ih.2.2⟩
+              rw [ih.1]; simp [residual, payloads, payloadOf]
+            | fail =>
+              have ih := wsLoop_conserves fuel { cur := none, failed := true } rest bufLen acc hacc
+              simp only [] at ih ⊢
+              refine ⟨?_, ih.2.1, ih.2.2⟩
+              rw [ih.1]; simp [residual, payloads, payloadOf]
+            | eof =>
+              have ih := wsLoop_conserves fuel { cur := none, failed := true } (.eof :: rest) bufLen acc hacc
+              simp only [] at ih ⊢
+              refine ⟨?_, ih.2.1, ih.2.2⟩
+              rw [ih.1]; simp [residual, payloads, payloadOf]
       | some c =>
         obtain ⟨data, index⟩ := c
         have hsp := cursorRead_spec data index (bufLen - acc.length)
@@ -166,7 +187,7 @@ theorem wsLoop_conserves : ∀ (fuel : Nat) (r : WsReader) (arrived : List WsMsg
         by_cases hlt : (acc ++ (cursorRead data index (bufLen - acc.length)).1).length < bufLen
         · simp only [hlt, ↓reduceIte]
           have hacc' : (acc ++ (cursorRead data index (bufLen - acc.length)).1).length ≤ bufLen := by omega
-          have ih := wsLoop_conserves fuel { cur := none } arrived bufLen _ hacc'
+          have ih := wsLoop_conserves fuel { cur := none, failed := failed } arrived bufLen _ hacc'
           simp only [] at ih ⊢
           have hempty : data.drop (cursorRead data index (bufLen - acc.length)).2 = [] := by
             apply hsp.2.2
@@ -174,7 +195,7 @@ theorem wsLoop_conserves : ∀ (fuel : Nat) (r : WsReader) (arrived : List WsMsg
             omega
           refine ⟨?_, ih.2.1, ?_⟩
           · rw [ih.1]
-            simp only [residual, hcur, List.nil_append, List.append_assoc]
+            simp only [residual, List.nil_append, List.append_assoc]
             rw [← hsp.1, hempty]; simp
           · intro hwb
             have := ih.2.2 hwb
@@ -183,11 +204,11 @@ theorem wsLoop_conserves : ∀ (fuel : Nat) (r : WsReader) (arrived : List WsMsg
         · simp only [hlt, ↓reduceIte]
           have hacc' : (acc ++ (cursorRead data index (bufLen - acc.length)).1).length ≤ bufLen := by
             simp only [List.length_append]; have := hsp.2.1; omega
-          have ih := wsLoop_conserves fuel { cur := some (data, (cursorRead data index (bufLen - acc.length)).2) } arrived bufLen _ hacc'
+          have ih := wsLoop_conserves fuel { cur := some (data, (cursorRead data index (bufLen - acc.length)).2), failed := failed } arrived bufLen _ hacc'
           simp only [] at ih ⊢
           refine ⟨?_, ih.2.1, ?_⟩
           · rw [ih.1]
-            simp only [residual, hcur, List.append_assoc]
+            simp only [residual, List.append_assoc]
             congr 1
             rw [← List.append_assoc, hsp.1]
           · intro hwb
@@ -203,6 +224,21 @@ theorem ws_read_conserves (r : WsReader) (arrived : List WsMsg) (bufLen : Nat) :
   have h := wsLoop_conserves (2 * arrived.length + 4) r arrived bufLen [] (Nat.zero_le _)
   simp only [List.nil_append] at h
   exact ⟨h.1, h.2.1⟩
+
+/-- **A failure of the websocket loses nothing.**  The read that reports the failure hands over no bytes, and
+    everything the adapter owed before it still owes afterwards: bytes of messages that arrived before the failure are
+    delivered by the reads before the error is reported (they are never dropped in favour of the error). -/
+theorem ws_error_loses_nothing (r : WsReader) (arrived : List WsMsg) (bufLen : Nat)
+    (h : (r.read arrived bufLen).2.2 = .err) :
+    residual (r.read arrived bufLen).1 (r.read arrived bufLen).2.1 = residual r arrived := by
+  have hc := ws_read_conserves r arrived bufLen
+  simp only [] at hc
+  rw [h] at hc
+  simpa [resultBytes] using hc.1
+
+/-- non-vacuity: data and the end of the stream become readable together: the data is handed over first, the error next -/
+example : ((({} : WsReader).read [.data [1, 2, 3], .eof] 4096).2.2, ((({} : WsReader).read [.data [1, 2, 3], .eof] 4096).1.read
+    (({} : WsReader).read [.data [1, 2, 3], .eof] 4096).2.1 4096).2.2) = (.ok [1, 2, 3], .err) := by decide
 
 /-- a session: before each read some more messages arrive -/
 def wsSession : WsReader → List WsMsg → List (List WsMsg × Nat) → Bytes → Bytes × WsReader × List WsMsg
